@@ -63,10 +63,56 @@ def gen_cases(rng, tier):
             h += ['u%d' % C[k], 't2']
         h += ['t%d' % (max(D, D2) + 30), 'q']
         cases.append({'id': 'c18-%d' % i, 'cfg': cfg, 'hist': h, 'sub': 'ksim', 'tags': {'nv': nv, 'D': D, 'D2': D2}})
+    # on-idle: fires once after kanata has been idle for the stated time - counted from the last input event, press or release -
+    # and not before; run in the processing-loop order (idle bookkeeping before every millisecond)
+    for i in range(60 if tier == 'quick' else 1500):
+        D = rng.choice([10, 50, 200])
+        cfg = '(defsrc a s d)\n(deflayer l0 (on-idle %d %s v0) b c)\n(defvirtualkeys v0 x)' % (D, rng.choice(['tap-vkey', 'tap-vkey', 'press-vkey', 'toggle-vkey']))
+        h = [rng.choice(['B0', 'B1']), 't%d' % rng.randint(1, 5), 'd30', 't%d' % rng.randint(1, 3), 'u30']
+        now = sum(int(t[1:]) for t in h if t[0] == 't')
+        last = now
+        down = []
+        for _ in range(rng.randint(0, 4)):
+            g = rng.randint(1, max(1, D - 6))
+            h.append('t%d' % g); now += g
+            if down and rng.random() < 0.6:
+                h.append('u%d' % down.pop())
+            else:
+                k = rng.choice([k for k in (31, 32) if k not in down] or [31])
+                if k in down:
+                    down.remove(k); h.append('u%d' % k)
+                else:
+                    down.append(k); h.append('d%d' % k)
+            last = now
+        if down:
+            # a key that is still held keeps kanata busy while an on-idle entry waits: the idle time starts at its release
+            g = rng.choice([3, D + 40])
+            h += ['t%d' % g] + ['u%d' % k for k in down]
+            last = now + g
+        h += ['t%d' % (D + 40), 'q']
+        cases.append({'id': 'c18-idle-%d' % i, 'cfg': cfg, 'hist': h, 'sub': 'ksim', 'idle': {'D': D, 'last': last},
+                      'tags': {'kind': 'on-idle', 'D': D}})
     return cases
 
 
+def oracle(c, it):
+    if 'idle' not in c or not it or it[0].startswith('PARSE-') or any(l.startswith(('PANIC', 'ABORT', 'HANG')) for l in it):
+        return None
+    D, last = c['idle']['D'], c['idle']['last']
+    fires = [int(l.split(' ')[0][1:].rstrip('+')) for l in it if l.startswith('@') and 'd45' in l.split(' ')[1:]]
+    if not fires:
+        return 'on-idle %d never fired although kanata was idle for %d ms after the last input event (tick %d)' % (D, D + 40, last)
+    if fires[0] < last + D:
+        return 'on-idle %d fired at tick %d, only %d ms after the last input event (tick %d)' % (D, fires[0], fires[0] - last, last)
+    if fires[0] > last + D + 5:
+        return 'on-idle %d fired at tick %d, %d ms after the last input event (tick %d)' % (D, fires[0], fires[0] - last, last)
+    if len(fires) != 1:
+        return 'on-idle fired %d times (ticks %s)' % (len(fires), fires)
+    return None
+
+
 SPEC = {
+    'oracle': oracle,
     'id': 'C18', 'sub': 'ksim', 'gen_cases': gen_cases, 'nontrivial': trace_has_output,
     'rule': 'configs with 1-3 virtual keys carrying key / chord / layer / macro actions operated through on-press, on-release, on-idle, '
             'hold-for-duration (two different durations), macros, and direct fake-key calls, with gaps at D-1/D/D+1; non-trivial = output produced',
